@@ -72,6 +72,14 @@ func runIdxCoupd(c *core.Ctx) {
 					idx = ci
 				}
 			}
+			// the index keys handed in ready-made (`c.evsIndex.Add(event, idxKeys)`, the keys derived
+			// outside the critical section): they are the index's own key function applied to the
+			// same event at every place they come from
+			if sc := an.StaticCallee(ci.Common()); sc != nil && recvTypeName(sc) == "eventCacheEvsIndex" && len(ci.Common().Args) == 3 && an.PathOf(ci.Common().Args[0]) == "recv.evsIndex" {
+				if (writesField(P, sc, ".idx") && !deletesField(P, sc, ".idx") || sc.Name() == "Add") && keysOfSameEvent(c, fn, ci.Common().Args[2], ci.Common().Args[1]) {
+					idx = ci
+				}
+			}
 		}
 		var problems []string
 		if set == nil {
@@ -145,6 +153,53 @@ func runIdxCoupd(c *core.Ctx) {
 		c.Check(len(problems) == 0, nil, fname(c, fn), "delete(evs,tree,index)", P.Pos(dl.Pos()), "map, tree and index are reduced together, all for "+cand,
 			"the three structures holding the retained set are not reduced together: "+strings.Join(problems, "; ")+" — a stale entry survives in one of them")
 	}
+}
+
+// keysOfSameEvent: keys is the result of a method of the index that derives keys from ev — computed
+// in fn, or handed to fn as a parameter that every call site of fn fills that way with the event it
+// passes along.
+func keysOfSameEvent(c *core.Ctx, fn *ssa.Function, keys, ev ssa.Value) bool {
+	isKeyCall := func(k, e ssa.Value) bool {
+		call := an.CallOf(k)
+		if call == nil {
+			return false
+		}
+		sc := an.StaticCallee(&call.Call)
+		if sc == nil || recvTypeName(sc) != "eventCacheEvsIndex" || len(call.Call.Args) != 2 {
+			return false
+		}
+		if _, isSlice := sc.Signature.Results().At(0).Type().Underlying().(*types.Slice); sc.Signature.Results().Len() != 1 || !isSlice {
+			return false
+		}
+		return an.Unwrap(call.Call.Args[1]) == an.Unwrap(e)
+	}
+	if isKeyCall(keys, ev) {
+		return true
+	}
+	kp, ok1 := an.Unwrap(keys).(*ssa.Parameter)
+	ep, ok2 := an.Unwrap(ev).(*ssa.Parameter)
+	if !ok1 || !ok2 || kp.Parent() != fn || ep.Parent() != fn {
+		return false
+	}
+	ki, ei := -1, -1
+	for i, p := range fn.Params {
+		if p == kp {
+			ki = i
+		}
+		if p == ep {
+			ei = i
+		}
+	}
+	sites := 0
+	for _, caller := range c.P.ModFuncs {
+		for _, call := range callsTo(caller, fn) {
+			sites++
+			if ki >= len(call.Call.Args) || ei >= len(call.Call.Args) || !isKeyCall(call.Call.Args[ki], call.Call.Args[ei]) {
+				return false
+			}
+		}
+	}
+	return sites > 0
 }
 
 func writesField(P *core.Program, fn *ssa.Function, suffix string) bool {
